@@ -7,7 +7,7 @@ import operator
 import z3
 
 from . import ty as T
-from .core import PYOBJ, ContractMisfit, Unsupported, Val, coerce, fresh, join_types, lift, real_const
+from .core import PYOBJ, ContractMisfit, PyMerge, Unsupported, Val, coerce, fresh, join_types, lift, real_const
 
 _PYBIN = {
     ast.Add: operator.add,
@@ -429,6 +429,14 @@ def ite(c, a: Val, b: Val) -> Val:
     if j is None and a.is_py and b.is_py and isinstance(a.py, (tuple, list)) and type(a.py) is type(b.py) and len(a.py) == len(b.py):
         items = [ite(c, x if isinstance(x, Val) else Val.const(x), y if isinstance(y, Val) else Val.const(y)) for x, y in zip(a.py, b.py)]
         return Val(PYOBJ, None, type(a.py)(items), True)
+    if (j is None or j is PYOBJ) and a.is_py and b.is_py and a.ty is PYOBJ and b.ty is PYOBJ and not _has_val(a.py) and not _has_val(b.py):
+        try:
+            if a.py is b.py or a.py == b.py:
+                return a  # the same python-level value on both sides
+        except Exception:  # noqa
+            pass
+        if not isinstance(a.py, _CT) and not isinstance(b.py, _CT):
+            raise PyMerge(f"cannot merge the python-level values {a.py!r} and {b.py!r}")
     if j is None:
         if a.ty is PYOBJ and b.ty is not PYOBJ:
             j = b.ty
